@@ -95,7 +95,7 @@ package consensus
 // The ghost trace `added` logs the events handed to the event loop. commitInner emits, for
 // each newly committed block in ancestor-first order, the triple CommitEvent{block},
 // ExecuteEvent{block's batch}, ConsensusLatencyEvent.
-//@ pred cmwf(cm *Committer) = cm.eventLoop != nil && cm.logger != nil && cm.blockchain != nil && cm.viewStates != nil && cm.viewStates.committedBlock != nil && blockchain.binv(cm.blockchain) && blockchain.bmaps(cm.blockchain) && cm.blockchain.sender != nil && cm.blockchain.eventLoop != nil
+//@ pred cmwf(cm *Committer) = cm.eventLoop != nil && cm.logger != nil && cm.blockchain != nil && cm.viewStates != nil && cm.viewStates.committedBlock != nil && blockchain.binv(cm.blockchain) && blockchain.bmaps(cm.blockchain) && cm.blockchain.sender != nil && cm.blockchain.eventLoop != nil && cm.blockchain.logger != nil
 //@ pure func cblk(i int) *hotstuff.Block = as(traceev(added, 0, i), hotstuff.CommitEvent).Block
 
 //@ func (*Committer).commitInner property C06,C07
@@ -103,11 +103,37 @@ package consensus
 //@   requires [views-grow-along-parent-links] blockchain.grows(cm.blockchain)
 //@   modifies trace(added), cm.viewStates.committedBlock, cm.blockchain.blocks[*], cm.blockchain.blockAtHeight[*], cm.blockchain.pendingFetch[*], cm.blockchain.eventLoop.handlers[*], cm.eventLoop.eventQ.head, cm.eventLoop.eventQ.tail, cm.eventLoop.eventQ.entries[*], alloc
 //@   ensures [inv] cmwf(cm) && blockchain.grows(cm.blockchain)
+//@   ensures [height-index] old(blockchain.hinv(cm.blockchain)) ==> blockchain.hinv(cm.blockchain)
 //@   ensures [error-executes-nothing] result != nil ==> tracelen(added) == old(tracelen(added)) && cm.viewStates.committedBlock == committedBlock
 //@   ensures [nothing-to-do] committedBlock.view >= block.view ==> result == nil && tracelen(added) == old(tracelen(added)) && cm.viewStates.committedBlock == committedBlock
 //@   ensures [commits-block] result == nil && committedBlock.view < block.view ==> cm.viewStates.committedBlock == block && tracelen(added) >= old(tracelen(added)) + 3 && cblk(tracelen(added) - 3) == block
 //@   ensures [monotone] cm.viewStates.committedBlock.view >= committedBlock.view
 //@   ensures [triples] tracelen(added) >= old(tracelen(added)) && (tracelen(added) - old(tracelen(added))) % 3 == 0
-//@   ensures [events] forall i int :: {traceat(added, 0, i)} old(tracelen(added)) <= i && i < tracelen(added) && (i - old(tracelen(added))) % 3 == 0 ==> istype(traceev(added, 0, i), hotstuff.CommitEvent) && istype(traceev(added, 0, i + 1), clientpb.ExecuteEvent) && cblk(i) != nil && as(traceev(added, 0, i + 1), clientpb.ExecuteEvent).Batch == cblk(i).batch && cblk(i).view > committedBlock.view && cblk(i).view <= block.view
-//@   ensures [chain-order] forall i int :: {traceat(added, 0, i)} old(tracelen(added)) <= i && i + 3 < tracelen(added) && (i - old(tracelen(added))) % 3 == 0 ==> cblk(i + 3).parent == cblk(i).hash && cblk(i).view < cblk(i + 3).view
+//@   ensures [events] forall i int :: {traceat(added, 0, i), traceat(added, 0, i + 1)} old(tracelen(added)) <= i && i < tracelen(added) && (i - old(tracelen(added))) % 3 == 0 ==> istype(traceev(added, 0, i), hotstuff.CommitEvent) && istype(traceev(added, 0, i + 1), clientpb.ExecuteEvent) && cblk(i) != nil && as(traceev(added, 0, i + 1), clientpb.ExecuteEvent).Batch == cblk(i).batch && cblk(i).view > committedBlock.view && cblk(i).view <= block.view
+//@   ensures [no-aborts] forall i int :: {traceat(added, 0, i)} old(tracelen(added)) <= i && i < tracelen(added) ==> !istype(traceev(added, 0, i), clientpb.AbortEvent)
+//@   ensures [chain-order] forall i int :: {traceat(added, 0, i), traceat(added, 0, i + 3)} old(tracelen(added)) <= i && i + 3 < tracelen(added) && (i - old(tracelen(added))) % 3 == 0 ==> cblk(i + 3).parent == cblk(i).hash && cblk(i).view < cblk(i + 3).view
 //@   ensures [history-kept] forall i int :: {traceat(added, 0, i)} 0 <= i && i < old(tracelen(added)) ==> traceat(added, 0, i) == old(traceat(added, 0, i))
+
+// commit: the commit triples of commitInner, then one AbortEvent per block PruneToHeight
+// reports. The ghost trace `pruned` names the blocks whose batches are aborted (recorded where
+// commit reads the batch of a reported block): every one of them is above the old prune
+// height and not on the chain of the (new) committed block, and the abort events are exactly
+// their batches, in order, after all commit triples.
+//@ pure func pblk(j int) *hotstuff.Block = asptr(traceat(pruned, 0, j), hotstuff.Block)
+//@ func (*Committer).commit property C06,C13
+//@   requires cmwf(cm) && blockchain.hinv(cm.blockchain) && block != nil
+//@   requires [views-grow-along-parent-links] blockchain.grows(cm.blockchain)
+//@   requires [collision-resistance] blockchain.hashdet()
+//@   modifies trace(added), trace(pruned), cm.viewStates.committedBlock, cm.blockchain.blocks[*], cm.blockchain.blockAtHeight[*], cm.blockchain.pendingFetch[*], cm.blockchain.pruneHeight, cm.blockchain.eventLoop.handlers[*], cm.eventLoop.eventQ.head, cm.eventLoop.eventQ.tail, cm.eventLoop.eventQ.entries[*], alloc
+//@   ghost at call Commands :: emit pruned(op0)
+//@   ensures [error-executes-nothing] result != nil ==> tracelen(added) == old(tracelen(added)) && tracelen(pruned) == old(tracelen(pruned)) && cm.viewStates.committedBlock == old(cm.viewStates.committedBlock)
+//@   ensures [monotone] cm.viewStates.committedBlock.view >= old(cm.viewStates.committedBlock.view)
+//@   ensures [committed] result == nil && old(cm.viewStates.committedBlock.view) < block.view ==> cm.viewStates.committedBlock == block
+//@   ensures [counts] tracelen(pruned) >= old(tracelen(pruned)) && tracelen(added) - old(tracelen(added)) >= tracelen(pruned) - old(tracelen(pruned))
+//@   ensures [aborted-blocks-are-off-chain] forall j int :: {traceat(pruned, 0, j)} old(tracelen(pruned)) <= j && j < tracelen(pruned) ==> pblk(j) != nil && pblk(j).view > old(cm.blockchain.pruneHeight) && !blockchain.sancp(cm.blockchain, cm.viewStates.committedBlock, pblk(j).hash, old(cm.blockchain.pruneHeight))
+//@   ensures [aborts-are-their-batches] forall j int :: {traceat(pruned, 0, j)} old(tracelen(pruned)) <= j && j < tracelen(pruned) ==> istype(traceev(added, 0, tracelen(added) - (tracelen(pruned) - j)), clientpb.AbortEvent) && as(traceev(added, 0, tracelen(added) - (tracelen(pruned) - j)), clientpb.AbortEvent).Batch == pblk(j).batch
+//@   ensures [no-other-aborts] forall k int :: {traceat(added, 0, k)} old(tracelen(added)) <= k && k < tracelen(added) - (tracelen(pruned) - old(tracelen(pruned))) ==> !istype(traceev(added, 0, k), clientpb.AbortEvent)
+//@   loop 0 invariant [sync] tracelen(pruned) == old(tracelen(pruned)) + rangeindex + 1 && tracelen(added) - rangeindex - 1 >= old(tracelen(added))
+//@   loop 0 invariant [aborted-blocks-are-off-chain] forall j int :: {traceat(pruned, 0, j)} old(tracelen(pruned)) <= j && j < tracelen(pruned) ==> pblk(j) != nil && pblk(j).view > old(cm.blockchain.pruneHeight) && !blockchain.sancp(cm.blockchain, cm.viewStates.committedBlock, pblk(j).hash, old(cm.blockchain.pruneHeight))
+//@   loop 0 invariant [aborts-are-their-batches] forall j int :: {traceat(pruned, 0, j)} old(tracelen(pruned)) <= j && j < tracelen(pruned) ==> istype(traceev(added, 0, tracelen(added) - (tracelen(pruned) - j)), clientpb.AbortEvent) && as(traceev(added, 0, tracelen(added) - (tracelen(pruned) - j)), clientpb.AbortEvent).Batch == pblk(j).batch
+//@   loop 0 invariant [no-other-aborts] forall k int :: {traceat(added, 0, k)} old(tracelen(added)) <= k && k < tracelen(added) - rangeindex - 1 ==> !istype(traceev(added, 0, k), clientpb.AbortEvent)
